@@ -1,25 +1,39 @@
-/* C11 (a) UPDATE step: the real <alg>_update from an ARBITRARY valid context state.
- *   pre-state : total-length counter L symbolic over its whole width with L mod block == LEFT (LEFT is fixed per
- *               query by the runner: a symbolic offset into the buf/buf_w union costs minutes), the first LEFT
- *               buffer bytes = pending message bytes (symbolic), the rest of the buffer = arbitrary garbage,
- *               chaining state arbitrary.
- *   step      : one update of len in [1, 2*block+2] arbitrary bytes.
- *   monitor   : stands in for the compression function; every block it is handed must be exactly the next
- *               block of  pending || data, the state it sees must be the one the previous call left.
- *   post      : #blocks = (LEFT+len) div block, counter = L + len (full width, all carries), tail bytes buffered at
- *               offset 0.., chaining state = result of the last monitor call (update itself never touches it),
- *               GOST: checksum = old checksum + sum of the delivered blocks (mod 2^256).
- * -DHUGE: bug-hunting variant for ONE update of len >= 2^32 bytes: block loop cut after 2 iterations (no unwinding
- *   assertion), so the checks sit inside the monitor: first block contents and counter == L + len at the first call. */
+/* C11 (a) UPDATE step of the real <alg>_update; the static compression function is replaced by the block MONITOR below.
+ *
+ * Measured: a symbolic buffer offset (`left`, derived from a symbolic counter) or a symbolic memcpy length costs a minute
+ * per query, so the step is decomposed into two query families whose conjunction is the step post-condition:
+ *
+ *  DATA mode (default; -DLEFT=n or -DLEFT_LO/-DLEFT_HI, -DLEN_LO/-DLEN_HI): data movement.  For every buffer fill of the
+ *     range: counter = a concrete near-carry value with that block offset, every len of the range (default [1, 2*block+2])
+ *     is executed (enumerated by symbolic execution, so all offsets/lengths are concrete), message
+ *     bytes, stale buffer bytes and chaining state are SYMBOLIC.  Monitor: every block handed to the compression function
+ *     is exactly the next block of pending||data and the chaining state is what the previous call left.  Post: #blocks,
+ *     tail buffered at offset 0, state = output of last compression call, counter = L+len, GOST: one checksum addition per block;
+ *     all memory-safety checks of CBMC on the real memcpy calls.
+ *  CNT mode (-DCNT): counter arithmetic and block count for EVERY counter value of the full width (64/128/256 bit; SHA-3:
+ *     every buffer fill) and every len in [1, 2*block+2], both symbolic.  memcpy/memset INTO THE CONTEXT are abstracted to
+ *     no-ops here (the counter fields are not reachable through an in-bounds copy into the buffer; in-bounds-ness is what
+ *     DATA mode checks for every (left,len) pair).  Post: counter == L + len over the full width, #blocks == ((L mod block)+len) div block.
+ *
+ *  -DHUGE (with either mode): bug-hunting variant for ONE update of 2^32 <= len < 2^61 bytes (symbolic): the block loop is
+ *     cut after 2 iterations WITHOUT unwinding assertion, so the checks sit inside the monitor: contents of the first two
+ *     blocks (DATA) and counter == L + len at the first compression call (CNT: for every L). */
 #include "verif.h"
+#include <string.h>
 #include "C11_alg.h"
 
 #define B C11_BLOCK
-#ifndef LEFT
-#error "-DLEFT=n"
+/* DATA mode: -DLEFT=n (one buffer fill) or -DLEFT_LO=a -DLEFT_HI=b (every fill in [a,b], enumerated) */
+#ifdef LEFT
+# define LEFT_LO LEFT
+# define LEFT_HI LEFT
 #endif
+#if !defined(CNT) && !defined(LEFT_LO)
+#error "-DLEFT=n or -DLEFT_LO/-DLEFT_HI"
+#endif
+#define LEFTMAX (B - 1)          /* sizes the arrays */
 #ifdef HUGE
-# define MAXLEN (3 * B)          /* bytes of the data object that the first events may read */
+# define MAXLEN (4 * B)          /* bytes of the data object that the first (cut) loop iterations may read */
 # ifdef KF_DEMO
 #  define HASSERT(c, m) VKF(c, m)
 # else
@@ -28,28 +42,74 @@
 #else
 # define MAXLEN (2 * B + 2)
 #endif
-#define WIN (LEFT + MAXLEN)
+#ifndef LEN_LO                   /* DATA mode: range of len enumerated by this query (the runner splits [1, 2*block+2]) */
+# define LEN_LO 1
+#endif
+#ifndef LEN_HI
+# define LEN_HI MAXLEN
+#endif
+#define WIN (LEFTMAX + MAXLEN)
 #define MAXBLK (WIN / B + 1)
+#define CBITS (C11_CNT_BITS ? C11_CNT_BITS : 64)
 
 static unsigned char data[MAXLEN];
 static unsigned char expect[WIN + B];
 static c11_word H[MAXBLK + 1][C11_STATE_W];
+static c11_word EW[MAXBLK][B / C11_W];      /* the expected stream as blocks of words in the algorithm's byte order */
 static unsigned nblk;
 static c11_u256 cnt_expected;
 
-#if ALG == ALG_GOST
-/* a += b (mod 2^256), 32-bit limbs, trusted reference; returns 1 iff some limb i < 7 has a == b == 0xFFFFFFFF with
- * carry-in 1 (the only case in which the real pp_crypto_hash_gost3411_sum_256 loses the carry, finding C11_gost_sum_carry) */
-static int gost_ref_add(uint32_t a[8], const uint32_t b[8])
+#ifdef CNT
+/* data movement into the context (its buffer) is abstracted away; copies/fills of other objects (GOST's local len256) are
+ * executed byte by byte */
+static int into_ctx(const void *d) { return __CPROVER_POINTER_OBJECT(d) == __CPROVER_POINTER_OBJECT(c11_ctx()); }
+void *c11_memcpy(void *d, const void *s, size_t n)
 {
-  unsigned i; uint64_t c = 0; int hit = 0;
-  for (i = 0; i < 8; i++) {
-    uint64_t t = (uint64_t) a[i] + b[i] + c;
-    if (i < 7 && a[i] == 0xFFFFFFFFu && b[i] == 0xFFFFFFFFu && c) hit = 1;
-    a[i] = (uint32_t) t; c = t >> 32;
-  }
-  return hit;
+  size_t i;
+  if (!into_ctx(d)) for (i = 0; i < n; i++) ((unsigned char *) d)[i] = ((const unsigned char *) s)[i];
+  return d;
 }
+void *c11_memset(void *d, int c, size_t n)
+{
+  size_t i;
+  if (!into_ctx(d)) for (i = 0; i < n; i++) ((unsigned char *) d)[i] = (unsigned char) c;
+  return d;
+}
+#endif
+
+static c11_u256 cur_L; static unsigned long long cur_len;
+
+#if ALG == ALG_GOST
+/* GOST keeps its bit counter and its checksum as 256-bit numbers advanced by the static pp_crypto_hash_gost3411_sum_256(a, b):
+ * a := a + b mod 2^256.  The real adder is decided against a reference adder for all 2^512 operand pairs by the gost_sum256
+ * query (C11_gostsum.c); in the step queries it is replaced by this MONITOR, which treats the sum as an uninterpreted
+ * operation: it records target and operands and stores a fresh symbolic result, so the step queries assert WHICH additions
+ * are made on WHICH operands and where the results end up, without 256-bit arithmetic in the solver (with a computing model
+ * one query took 600 s). */
+#define MAXSUM (MAXBLK + 2)
+static unsigned nsum;
+static uint32_t SA[MAXSUM][8], SB[MAXSUM][8], ST[MAXSUM][8], S0[8];
+static int STGT[MAXSUM];
+void C11_SUM256(uint32_t a[8], const uint32_t b[8])
+{
+  unsigned k = nsum, i;
+  VASSERT(k < MAXSUM, "no more 256-bit additions than one per block plus one for the counter");
+  STGT[k] = (a == c11_len()) ? 0 : (a == c11_sum()) ? 1 : 2;
+  for (i = 0; i < 8; i++) { SA[k][i] = a[i]; SB[k][i] = b[i]; a[i] = ST[k][i]; }
+  nsum = k + 1;
+}
+/* the bit counter is advanced exactly by the first addition: counter := L (+) 8*len */
+static int counter_ok(void)
+{
+  int ok = (nsum >= 1) && (STGT[0] == 0); unsigned i;
+  for (i = 0; i < 4; i++) ok &= (SA[0][2 * i] == (uint32_t) cur_L.l[i]) & (SA[0][2 * i + 1] == (uint32_t) (cur_L.l[i] >> 32));
+  ok &= ((((uint64_t) SB[0][1] << 32) | SB[0][0]) == cur_len * 8);          /* len < 2^61 */
+  for (i = 2; i < 8; i++) ok &= (SB[0][i] == 0);
+  for (i = 0; i < 8; i++) ok &= (c11_len()[i] == ST[0][i]);
+  return ok;
+}
+#else
+static int counter_ok(void) { return c11_eq_low(c11_get_count(), cnt_expected, CBITS); }
 #endif
 
 static int state_is(unsigned k)
@@ -65,96 +125,179 @@ void C11_MON(void *ctx, const c11_word *d)
   unsigned j; int ok = 1; unsigned k = nblk;
   VASSERT(ctx == c11_ctx(), "compression function called on the context being updated");
   VASSERT(k < MAXBLK, "no more blocks compressed than the input contains");
-  for (j = 0; j < B; j++) ok &= (c11_block_byte(d, j) == expect[k * B + j]);
-#ifdef HUGE
+#ifndef CNT
+  for (j = 0; j < B / C11_W; j++) ok &= (d[j] == EW[k][j]);
+# ifdef HUGE
   HASSERT(ok, "huge update: block handed to the compression function is the next block of pending||data");
-  if (k == 0)
-    HASSERT(c11_eq_low(c11_get_count(), cnt_expected, C11_CNT_BITS ? C11_CNT_BITS : 64),
-            "huge update: length counter == old counter + len (all bits of len)");
-  if (k == 1) VWITNESS("huge update: second block reached");
-#else
+# else
   VASSERT(ok, "block handed to the compression function is the next block of pending||data");
+# endif
+#endif
+#ifdef HUGE
+  if (k == 0)
+    HASSERT(counter_ok(), "huge update: length counter == old counter + len (all bits of len)");
+  if (k == 1) VWITNESS("huge update: second compression call reached");
 #endif
   VASSERT(state_is(k), "chaining state untouched between compression calls");
   for (j = 0; j < C11_STATE_W; j++) c11_state()[j] = H[k + 1][j];
   nblk = k + 1;
 }
 
-void harness(void)
+/* a concrete counter with block offset `left` just below a carry boundary of every limb */
+static c11_u256 near_carry(unsigned left)
 {
-  unsigned i, k;
-  unsigned char *buf = c11_buf();
-  c11_u256 L, add;
-  unsigned long long len;
-
-  c11_set_variant();
-  /* counter: any value of the full width whose block offset is LEFT */
-  for (i = 0; i < 4; i++) L.l[i] = ND_ULL();
+  c11_u256 r = {{0, 0, 0, 0}};
 #if ALG == ALG_SHA3
-  L = c11_from_u64(LEFT);                       /* SHA-3 keeps only the buffer fill */
+  r.l[0] = left;
 #elif ALG == ALG_GOST
-  VASSUME((L.l[0] & 7) == 0 && ((L.l[0] & 0xFF) >> 3) == LEFT);   /* bit counter, whole bytes */
+  r.l[0] = 0xFFFFFFFFFFFFFF00ULL + 8 * left; r.l[1] = 0xFFFFFFFFFFFFFFFFULL; r.l[2] = 0x00000007FFFFFFFFULL; r.l[3] = 0x1122334455667788ULL;
+#elif C11_CNT_BITS == 64
+  r.l[0] = 0x00000007FFFFFFC0ULL + left;
 #else
-  VASSUME((L.l[0] & (B - 1)) == LEFT);
-  if (C11_CNT_BITS <= 64) L.l[1] = 0;
-  L.l[2] = L.l[3] = 0;
+  r.l[0] = 0xFFFFFFFFFFFFFF80ULL + left; r.l[1] = 0x0000000700000007ULL;
 #endif
+  return r;
+}
+
+static c11_u256 expected_count(c11_u256 L, unsigned left, unsigned long long len)
+{
+#if ALG == ALG_SHA3
+  (void) L; return c11_from_u64((left + len) % B);      /* SHA-3 keeps only the buffer fill */
+#else
+  (void) left; return c11_add256(L, c11_from_u64(len * C11_CNT_UNIT));
+#endif
+}
+
+static void post(c11_u256 L, unsigned left, unsigned long long len)
+{
+  unsigned long long tot = left + len;
+  unsigned nb = (unsigned) (tot / B), tail = (unsigned) (tot % B), i, k;
+  int ok = 1;
+  (void) L; (void) k;
+  VASSERT(nblk == nb, "number of blocks compressed == (pending+len) div block");
+  VASSERT(counter_ok(), "length counter == old counter + len over the full counter width");
+  VASSERT(state_is(nblk), "chaining state after update == output of the last compression call");
+#if ALG == ALG_GOST
+  VASSERT(nsum == 1 + nb, "GOST: one counter addition plus one checksum addition per compressed block");
+#endif
+#ifndef CNT
+  for (i = 0; i < B; i++) if (i < tail) ok &= (c11_buf_at(i) == expect[nb * B + i]);
+  VASSERT(ok, "unprocessed tail bytes are buffered in order at offset 0");
+# if ALG == ALG_GOST
+  {
+    int bad = 0; unsigned w;
+    for (k = 0; k < MAXBLK; k++) if (k < nb) {
+      bad |= (STGT[1 + k] != 1);
+      for (w = 0; w < 8; w++) bad |= (SA[1 + k][w] != (k == 0 ? S0[w] : ST[k][w])) | (SB[1 + k][w] != EW[k][w]);
+    }
+    for (w = 0; w < 8; w++) bad |= (c11_sum()[w] != (nb == 0 ? S0[w] : ST[nb][w]));
+    VASSERT(!bad, "GOST checksum := checksum (+) block for every compressed block, in order, result kept in the context");
+  }
+# endif
+#endif
+}
+
+static void set_pre(c11_u256 L, const unsigned char *G)
+{
+  unsigned i;
+  (void) G;
+  c11_set_variant();
   c11_set_count(L);
-  for (i = 0; i < B; i++) buf[i] = ND_UCHAR();   /* pending bytes, then arbitrary garbage */
-  for (i = 0; i < LEFT; i++) expect[i] = buf[i];
-  for (i = 0; i < MAXLEN; i++) { data[i] = ND_UCHAR(); expect[LEFT + i] = data[i]; }
-  for (k = 0; k <= MAXBLK; k++) for (i = 0; i < C11_STATE_W; i++) H[k][i] = (c11_word) ND_ULL();
+  c11_load_buf();        /* one whole-object write: byte-wise writes into the buf/buf_w union cost ~160 SSA steps each */
   for (i = 0; i < C11_STATE_W; i++) c11_state()[i] = H[0][i];
 #if ALG == ALG_GOST
-  uint32_t S0[8];
-  for (i = 0; i < 8; i++) { S0[i] = ND_UINT(); c11_sum()[i] = S0[i]; }
+  for (i = 0; i < 8; i++) c11_sum()[i] = S0[i];
+  nsum = 0;
 #endif
+  nblk = 0;
+}
 
-  len = ND_ULL();
-#ifdef HUGE
-  VASSUME(len >= (1ULL << 32) && len < (1ULL << 61));   /* >= 2^61 bytes: bit count leaves 64 bits, outside the claim */
-#else
-  VASSUME(len >= 1 && len <= MAXLEN);
-#endif
-  add = c11_from_u64(len * C11_CNT_UNIT);
-  cnt_expected = c11_add256(L, add);
-#if ALG == ALG_SHA3
-  cnt_expected = c11_from_u64((LEFT + len) % B);
-#endif
+void harness(void)
+{
+  static unsigned char G[B];
+  unsigned i, k;
+  c11_u256 L;
+  unsigned long long len;
 
-  c11_update(data, (size_t) len);
-
-#ifndef HUGE
-  {
-    unsigned long long tot = LEFT + len;
-    unsigned nb = (unsigned) (tot / B), tail = (unsigned) (tot % B);
-    int ok = 1;
-    VASSERT(nblk == nb, "number of blocks compressed == (pending+len) div block");
-    VASSERT(c11_eq_low(c11_get_count(), cnt_expected, C11_CNT_BITS ? C11_CNT_BITS : 64),
-            "length counter == old counter + len over the full counter width");
-    for (i = 0; i < B; i++) if (i < tail) ok &= (buf[i] == expect[nb * B + i]);
-    VASSERT(ok, "unprocessed tail bytes are buffered in order at offset 0");
-    VASSERT(state_is(nblk), "chaining state after update == output of the last compression call");
+  for (i = 0; i < B; i++) c11_image_buf()[i] = G[i] = ND_UCHAR();   /* pending bytes, then arbitrary stale bytes */
+  for (i = 0; i < MAXLEN; i++) data[i] = ND_UCHAR();    /* arbitrary message bytes */
+  for (k = 0; k <= MAXBLK; k++) for (i = 0; i < C11_STATE_W; i++) H[k][i] = (c11_word) ND_ULL();
 #if ALG == ALG_GOST
-    {
-      /* checksum: reference adder (64-bit intermediate per 32-bit limb) over the delivered blocks */
-      uint32_t s[8], blk[8]; int bad = 0, lost = 0;
-      for (i = 0; i < 8; i++) s[i] = S0[i];
-      for (k = 0; k < MAXBLK; k++) if (k < nb) {
-        unsigned w, j;
-        for (w = 0; w < 8; w++) { blk[w] = 0; for (j = 0; j < 4; j++) blk[w] |= (uint32_t) expect[k * B + 4 * w + j] << (8 * j); }
-        lost |= gost_ref_add(s, blk);
+  for (i = 0; i < 8; i++) S0[i] = ND_UINT();
+  for (k = 0; k < MAXSUM; k++) for (i = 0; i < 8; i++) ST[k][i] = ND_UINT();
+#endif
+
+#ifdef CNT
+  /* ---- every counter value, every len: counter arithmetic + block count ---- */
+  for (i = 0; i < 4; i++) L.l[i] = ND_ULL();
+# if ALG == ALG_SHA3
+  L.l[1] = L.l[2] = L.l[3] = 0; VASSUME(L.l[0] < B);   /* SHA-3 keeps only the buffer fill */
+# elif ALG == ALG_GOST
+  VASSUME((L.l[0] & 7) == 0);                           /* bit counter of whole bytes */
+# else
+  if (C11_CNT_BITS <= 64) L.l[1] = 0;
+  L.l[2] = L.l[3] = 0;
+# endif
+  {
+# if ALG == ALG_GOST
+    unsigned left = (unsigned) ((L.l[0] & 0xFF) >> 3);
+# else
+    unsigned left = (unsigned) (L.l[0] % B);
+# endif
+    len = ND_ULL();
+# ifdef HUGE
+    VASSUME(len >= (1ULL << 32) && len < (1ULL << 61));  /* >= 2^61 bytes: the bit count leaves 64 bits, outside the claim */
+# else
+    VASSUME(len >= 1 && len <= MAXLEN);
+# endif
+    cnt_expected = expected_count(L, left, len);
+    cur_L = L; cur_len = len;
+    set_pre(L, G);
+    c11_update(data, (size_t) len);
+# ifndef HUGE
+    post(L, left, len);
+    if (nblk == 0) VWITNESS("update absorbed into the buffer only");
+    if (nblk == 1) VWITNESS("one block compressed");
+    if (nblk >= 2) VWITNESS("two or more blocks compressed");
+    if (c11_get_count().l[0] < L.l[0]) VWITNESS("carry out of the low counter limb");
+# endif
+  }
+#else
+  /* ---- data movement: concrete offsets, symbolic contents ---- */
+  {
+    unsigned left;
+    for (left = LEFT_LO; left <= LEFT_HI; left++) {
+      L = near_carry(left);
+      for (i = 0; i < left; i++) expect[i] = G[i];
+      for (i = 0; i < MAXLEN; i++) expect[left + i] = data[i];
+      for (k = 0; k < MAXBLK; k++) for (i = 0; i < B / C11_W; i++) EW[k][i] = c11_word_of(expect + k * B + i * C11_W);
+# ifdef HUGE
+      len = ND_ULL();
+      VASSUME(len >= (1ULL << 32) && len < (1ULL << 61));
+      cnt_expected = expected_count(L, left, len);
+      cur_L = L; cur_len = len;
+      set_pre(L, G);
+      c11_update(data, (size_t) len);
+# else
+      unsigned long long hi = LEN_HI;
+#  ifdef TRIM
+      /* thorough-tier economy: for buffer fills other than 0, 1, block-1 stop at len = to_fill + block + 1 (prologue, zero and
+       * one whole block, every tail size); two whole blocks after the prologue are enumerated for the boundary fills only */
+      if (left != 0 && left != 1 && left != B - 1 && hi > 2 * B - left + 1) hi = 2 * B - left + 1;
+#  endif
+      for (len = LEN_LO; len <= hi; len++) {
+        cnt_expected = expected_count(L, left, len);
+        cur_L = L; cur_len = len;
+        set_pre(L, G);
+        c11_update(data, (size_t) len);
+        post(L, left, len);
+        if (left == LEFT_HI && len == hi) VWITNESS("last (buffer fill, len) pair of the range executed");
       }
-#ifdef KF_OPEN_C11_gost_sum_carry
-      VASSUME(!lost);   /* known finding: carry out of a limb with a == b == 0xFFFFFFFF and carry-in 1 is dropped */
-#endif
-      for (i = 0; i < 8; i++) bad |= (c11_sum()[i] != s[i]);
-      VASSERT(!bad, "GOST checksum == old checksum + delivered blocks (mod 2^256)");
+# endif
     }
-#endif
-    if (nb == 0) VWITNESS("update absorbed into the buffer only");
-    if (nb == 1) VWITNESS("one block compressed");
-    if (nb >= 2) VWITNESS("two or more blocks compressed");
+# ifndef HUGE
+    VWITNESS("all (buffer fill, len) pairs of the range executed");
+# endif
   }
 #endif
 }
